@@ -1,6 +1,7 @@
 use crate::runner::{Ctx, Property};
 
 pub mod c01;
+pub mod c07;
 pub mod c11;
 pub mod c10;
 pub mod c13;
@@ -21,6 +22,7 @@ pub mod c20;
 pub fn all(ctx: &Ctx) -> Vec<Property> {
     vec![
         c01::property(ctx),
+        c07::property(ctx),
         c11::property(ctx),
         c10::property(ctx),
         c13::property(ctx),
